@@ -75,7 +75,7 @@ Theorem C04_pipe_position_keys : forall p, pp_scope p -> forall coeffs,
   length coeffs = Z.to_nat (pp_nc p) -> (forall d, In d coeffs -> zlen d = pp_w p * pp_h p) ->
   (forall d, In d coeffs -> forall v, In v d -> - 2 ^ 25 < v < 2 ^ 25) ->
   forall cells, pipe_cells p coeffs = Ok cells ->
-  T2ProofsProg.pk_ok (pp_levels p + 1) (pp_nc p) (dec_pidx p) (precinct_position_key (pipe_pgeom p) (pp_levels p + 1)).
+  T2ProofsProg.pk_ok (pp_levels p + 1) (pp_nc p) (dec_pidx p) (precinct_position_key (pipe_pgeom_dec p) (pp_levels p + 1)).
 Proof. exact G3_keys. Qed.
 Print Assumptions C04_pipe_position_keys.
 
@@ -100,7 +100,7 @@ Theorem C04_pipe_t2_delivers : forall p, pp_scope p -> forall coeffs,
   forall eps cells', 0 <= pp_order p <= 4 ->
   enc_packets (pp_order p) 1 (pp_levels p + 1) (pp_nc p) (pipe_pgeom p) cells = Ok (eps, cells') -> small_packets eps ->
   exists dps,
-    dec_packets (packets_bytes eps) (pp_order p) 1 (pp_levels p + 1) (pp_nc p) (pipe_pgeom p) (dec_pidx p) (dec_geo p) 0 false false = Ok dps /\
+    dec_packets (packets_bytes eps) (pp_order p) 1 (pp_levels p + 1) (pp_nc p) (pipe_pgeom_dec p) (dec_pidx p) (dec_geo p) 0 false false = Ok dps /\
     forall c, 0 <= c < pp_nc p -> forall i r cb, In (i, (r, cb)) (NE p (coef coeffs c)) ->
       exists ci, aget key2_eqb (gather c (dec_order p) [] dps) (r, i) = Some ci /\ delivers (eblk p r cb) ci.
 Proof. exact t2_delivers. Qed.
@@ -119,7 +119,7 @@ Print Assumptions C04_pipe_t2_encodes.
 (* ---- non-vacuity: a concrete 2x2 RGB image (RCT, one DWT level, RPCL) through the whole
         pipeline by vm_compute, and the hypotheses of the partial theorem on it ---- *)
 
-Definition ex_p : pparams := mkPP 2 2 3 8 false 1 4 4 true 2.
+Definition ex_p : pparams := mkPP 2 2 3 8 false 1 4 4 true 2 0 0 2.
 Definition ex_samples : list Z := [10; 200; 30; 40; 255; 0; 1; 2; 3; 250; 128; 7].
 
 Example C04_pipe_example_roundtrip :
